@@ -153,7 +153,63 @@ class ModuleSweep:
                     self.undecided.append(dict(opts=repr(opts), n=n, why='module time limit'))
                     continue
                 self.unit(f, opts, n)
+        if self.undecided:
+            try:
+                self.bounded_standin()
+            except Exception as e:      # noqa: B902
+                self.undecided.append(dict(opts='', n='bounded', why='bounded stand-in crashed: %s' % e))
         return self.result()
+
+    # ------------------------------------------------------------------ bounded stand-in for undecided modules
+    HOSTILE = ['', ' ', '\n', '\x00', '0', '-', '1' * 50, '1' * 5000, 'A' * 41, '\u0661\u0662\u0663', '\uff11\uff12', '\U0001d7ce' * 9, '\u00b2\u00b3',
+               '\u00df', '\u0130', 'ŉ', '\u2028', ' 1', '1 ', '1\n', '\u20031', 'None']
+
+    def bounded_standin(self):
+        """run-time contract check of C01/C02/C15 on generated inputs, for modules the symbolic sweep left (partly)
+        undecided: corpus numbers, their single-edit neighbours, hostile strings, non-string objects"""
+        import random
+        from . import corpus
+        from .isets import ASCII
+        rnd = random.Random(int(os.environ.get('VERIF_SEED', '0') or 0))
+        allowed = ASCII.union(ISet.of(NATIONAL.get(self.modname, '')))
+        inputs = list(self.HOSTILE)
+        alpha = '0123456789ABCDEFGHIJKLMNOPQRSTUVWXYZ -./\n\u0660\uff10é'
+        for x in corpus.valid_numbers(self.modname, 10 if self.tier == 'quick' else 40):
+            inputs.append(x)
+            for _ in range(12 if self.tier == 'quick' else 60):
+                if not x:
+                    break
+                i = rnd.randrange(len(x))
+                op = rnd.choice('sdi')
+                inputs.append(x[:i] + rnd.choice(alpha) + x[i + 1:] if op == 's' else x[:i] + x[i + 1:] if op == 'd' else x[:i] + rnd.choice(alpha) + x[i:])
+            inputs += [x + '\n', ' ' + x, x.lower(), x + '\u0660']
+        n = 0
+        for opts in option_valuations(self.mod):
+            for x in inputs + [None, 5, 1.5, b'12', ['1', '2'], object()]:
+                n += 1
+                res = call_real(self.qual, [x], opts)
+                if res[0] == 'raise' and not is_validation_error(res):
+                    if 'C01' in self.props:
+                        self.finding('C01', 'non-ValidationError', 'bounded: %s' % res[1], input=x if isinstance(x, str) else repr(x), opts=opts, today=None, n='bounded',
+                                     approx=False, real=list(res[:3]), reproduced=True)
+                    continue
+                if res[0] != 'return':
+                    continue
+                v = res[1]
+                if 'C01' in self.props and (not isinstance(v, str) or v == '') and self.modname not in GENERIC:
+                    self.finding('C01', 'bad return value', 'bounded: returns %s' % type(v).__name__, input=x if isinstance(x, str) else repr(x), opts=opts, today=None,
+                                 n='bounded', approx=False, real=['return', repr(v)[:80]], reproduced=True)
+                if not isinstance(v, str):
+                    continue
+                if 'C15' in self.props and self.modname not in GENERIC and any(not allowed.contains(ord(c)) for c in v):
+                    self.finding('C15', 'non-ASCII result', 'bounded: validate returns a non-ASCII character', input=x, opts=opts, today=None, n='bounded',
+                                 approx=False, real=['return', repr(v)[:80]], reproduced=True)
+                if 'C02' in self.props and isinstance(x, str):
+                    r2 = call_real(self.qual, [v], opts)
+                    if v != v.strip() or not (r2[0] == 'return' and r2[1] == v):
+                        self.finding('C02', 'not a fixed point', 'bounded: validate(validate(x)) is not validate(x)', input=x, opts=opts, today=None, n='bounded',
+                                     approx=False, real=['return', repr(v)[:80], list(r2[:2])], reproduced=True)
+        self.stats['bounded_inputs'] = n
 
     def unit(self, f, opts, n):
         t0 = time.time()
